@@ -1852,6 +1852,87 @@ func (w *bWorld) sharedDischargeEpisode() {
 	w.specBundle(hdr)
 }
 
+// largeVerifiedSetEpisode: a verified caveat set LARGER than any single token's caveat list (a permission token with
+// 1000 caveats plus a discharge with 30: every token stays below the decoder's pre-allocation bound of 1024, the
+// verified set does not). The caveat that refuses the request is the LAST one of the discharge. Attenuate copies
+// verified sets (Clone = encode + decode): after it the bundle must refuse what it refused before, like the
+// re-parsed, re-verified header does.
+func (w *bWorld) largeVerifiedSetEpisode() {
+	r, o := w.r, w.o
+	ctx := context.Background()
+	var bs []*bundle.Bundle
+	var ops, outs []string
+	defer func() {
+		if p := recover(); p != nil {
+			msg := strings.ReplaceAll(strings.SplitN(fmt.Sprint(p), "\n", 2)[0], " ", "_")
+			o.emit(fmt.Sprintf("(bundle.run (scope %s) %s %s %s %s)", bundleScope, w.sxKeys(), sxTrust(w.trusted), hs(w.permLoc), strings.Join(ops, " ")), "panic:"+msg)
+		}
+	}()
+	step := func(op, out string) {
+		ops = append(ops, op)
+		outs = append(outs, out+"~"+statesStr(bs))
+	}
+	kid := w.kids[0]
+	tp := w.tps[0]
+	m, err := macaroon.New(kid, w.permLoc, w.keys[string(kid)])
+	if err != nil {
+		panic(err)
+	}
+	m.Add(&flyio.Organization{ID: 1, Mask: resset.ActionAll})
+	nTok := pick(r, []int{995, 1000, 1010, 1022})
+	for i := 0; i < nTok; i++ {
+		m.Add(&macaroon.ValidityWindow{NotBefore: int64(i), NotAfter: 4_000_000_000 + int64(i)})
+	}
+	it, err := newTP(tp.ka, tp.loc)
+	if err != nil {
+		panic(err)
+	}
+	if err := m.Add(it.cav); err != nil {
+		panic(err)
+	}
+	_, dm, err := macaroon.DischargeTicket(tp.ka, tp.loc, it.tp.ticket)
+	if err != nil {
+		panic(err)
+	}
+	nDis := pick(r, []int{5, 30, 40})
+	for i := 0; i < nDis; i++ {
+		dm.Add(&macaroon.ValidityWindow{NotBefore: int64(i), NotAfter: 3_000_000_000 + int64(i)})
+	}
+	ro := resset.ActionRead
+	dm.Add(&ro) // the deciding caveat: last of the discharge, beyond position 1024 of the verified set
+	o.count(fmt.Sprintf("largeset.total%d", nTok+nDis+3))
+	hdr := "FlyV1 " + b64tok(w.label(), mustEnc(m)) + "," + b64tok(w.label(), mustEnc(dm))
+	d := r.Dyn()
+	d.WF, d.NowSec, d.NowNsec, d.Org, d.Action = "", baseNow, 0, p64(1), resset.ActionWrite
+	wAcc, wSx := d.As("org"), d.Sx("org")
+	d2 := *d
+	d2.Action = resset.ActionRead
+	rAcc, rSx := d2.As("org"), d2.Sx("org")
+	verify := func(i int) {
+		cs, err := bs[i].Verify(ctx, w.resolver())
+		step(fmt.Sprintf("(verify %d)", i), setsStr(cs, err))
+		step(fmt.Sprintf("(validate %d %s)", i, wSx), flagStr(bs[i].Validate(wAcc)))
+		step(fmt.Sprintf("(validate %d %s)", i, rSx), flagStr(bs[i].Validate(rAcc)))
+	}
+	b, perr := bundle.ParseBundle(w.permLoc, hdr)
+	bs = append(bs, b)
+	e := "n"
+	if perr != nil {
+		e = "e"
+	}
+	step(fmt.Sprintf("(parse %s default)", hs(hdr)), "new0:"+e)
+	verify(0)
+	att := &flyio.Organization{ID: 1, Mask: resset.ActionRead | resset.ActionWrite}
+	step(fmt.Sprintf("(attenuate 0 (c %s))", sxCav(att)), flagStr(b.Attenuate(att)))
+	step(fmt.Sprintf("(validate 0 %s)", wSx), flagStr(b.Validate(wAcc)))
+	step(fmt.Sprintf("(validate 0 %s)", rSx), flagStr(b.Validate(rAcc)))
+	bs = append(bs, b.Clone())
+	step("(clone 0)", fmt.Sprintf("new%d", len(bs)-1))
+	verify(1)
+	o.emit(fmt.Sprintf("(bundle.run (scope %s) %s %s %s %s)", bundleScope, w.sxKeys(), sxTrust(w.trusted), hs(w.permLoc), strings.Join(ops, " ")),
+		strings.Join(outs, " | "))
+}
+
 // dupAttenuationEpisode: ONE Attenuate call with several caveats among which Add skips duplicates —
 // of a caveat the token already carries, or of an earlier element of the list — at every position
 // (first, in between, last).  For a verified token the verified set must gain exactly the caveats that
@@ -2317,6 +2398,9 @@ func famBundle(r *Rng, o *Out, tier string) {
 		w.dischargeLocationEpisode()
 		w.dupAttenuationEpisode()
 		w.sharedDischargeEpisode()
+		if e%50 == 7 {
+			w.largeVerifiedSetEpisode()
+		}
 		if r.Chance(1, 3) {
 			w.confusableLocationsEpisode()
 		}
